@@ -269,7 +269,10 @@ def u_tooler(c):
         def pop(it_, a, k):
             events.append(("pop", a[0]))
 
-        return SymObj("stack", Val.ref(z3.IntVal(c.new_id())), attrs={"push": SummaryFn("push", push), "pop": SummaryFn("pop", pop)})
+        # observable state of the stack after the pop: the function is still instrumented as a pure path element of another
+        # selector (instrument_count > 0) although no variable is captured any more (all counts 0) -- the stack must stay
+        return SymObj("stack", Val.ref(z3.IntVal(c.new_id())), attrs={"push": SummaryFn("push", push), "pop": SummaryFn("pop", pop),
+                                                                       "captures": collections.Counter({"c1": 0}), "instrument_count": 1})
 
     created = []
 
